@@ -295,10 +295,19 @@ func genTraitEnum(r *rand.Rand, nm *namer, typeName string, nextBlock *int, sp t
 	for j := range st {
 		st[j] = colState{ints: map[string]bool{}, distinct: true}
 	}
+	// owner: the name of the constant the cell is written next to ("" on duplicate lines)
+	owner := ""
 	drawCell := func(j int, varName string, forceDup bool) Cell {
 		k := cols[j]
 		switch k.pk {
 		case "str":
+			// a string cell (untyped or of a named string type) that spells the name of its own
+			// constant: Parse must still return the owner for the typed value (round 5, C12-51)
+			if owner != "" && !usedStr[owner] && r.IntN(12) == 0 {
+				usedStr[owner] = true
+				shape["str_cell_spells_own_name"] = true
+				return cellOf(k, varName, owner, 0, false)
+			}
 			return cellOf(k, varName, drawStr(), 0, false)
 		case "bool":
 			b := st[j].nbool%2 == 1
@@ -370,6 +379,7 @@ func genTraitEnum(r *rand.Rand, nm *namer, typeName string, nextBlock *int, sp t
 			e.Consts = append(e.Consts, c)
 			continue
 		}
+		owner = c.Name
 		for j := range cols {
 			varName := "_"
 			if i == 0 {
@@ -385,6 +395,7 @@ func genTraitEnum(r *rand.Rand, nm *namer, typeName string, nextBlock *int, sp t
 		}
 		e.Consts = append(e.Consts, c)
 	}
+	owner = ""
 	// duplicates
 	if len(e.Consts) > 0 && r.IntN(100) < sp.dupNoCells {
 		k := 1 + r.IntN(2)
@@ -702,6 +713,16 @@ func corpusC12() []FileDef {
 		traitEnum("E0", uByName("int"), 0, []TypeInfo{typeInfoOf(ks)},
 			Const{Name: "Red", Val: "0", Cells: []Cell{cellOf(ks, "_Label", "Red", 0, false)}},
 			Const{Name: "Blue", Val: "1", Cells: []Cell{cellOf(ks, "_", "blu", 0, false)}}),
+	}})
+	// 9b. the same with a NAMED string type: `Label("Red")` next to Red is not the plain string the
+	//     Parse switch lists for the name, so it needs its own case entry (round 5, C12-51)
+	o9b := defaultOpts()
+	o9b.Parsable = []string{"Label", "Code"}
+	out = append(out, FileDef{Kind: "corpus", Opts: o9b, Traits: true, Enums: []EnumDef{
+		traitEnum("E0", uByName("int"), 0, []TypeInfo{typeInfoOf(kS), typeInfoOf(ki)},
+			Const{Name: "Apple", Val: "0", Cells: []Cell{cellOf(kS, "_Label", "apple", 0, false), cellOf(ki, "_Code", "", 10, false)}},
+			Const{Name: "Pear", Val: "1", Cells: []Cell{cellOf(kS, "_", "Pear", 0, false), cellOf(ki, "_", "", 20, false)}},
+			Const{Name: "Plum", Val: "2", Cells: []Cell{cellOf(kS, "_", "plum", 0, false), cellOf(ki, "_", "", 30, false)}}),
 	}})
 	out = append(out, FileDef{Kind: "corpus", Opts: o9, Traits: true, Enums: []EnumDef{
 		traitEnum("E0", uByName("int"), 0, []TypeInfo{typeInfoOf(ks)},
